@@ -9,7 +9,7 @@ TECH = ('contract-based deductive verification: sidecar contracts on the real fu
         "/repo's current source by the pyvc symbolic executor and discharged by z3 (cvc5 second opinion in the thorough tier); "
         'bounded symbolic stand-in (all real inputs of stated sizes) where no unbounded contract is in reach')
 
-COMMON_NOTE = ('Trusted base: pyvc interpreter of the Python subset (A1), assumed NumPy/SciPy library contracts (A2), float64 treated as '
+COMMON_NOTE = ('Trusted base: pyvc interpreter of the Python subset (A1; co-executed against CPython on 38 eqsig function variants on every run), assumed NumPy/SciPy library contracts (A2; 137 models/variants cross-checked against the installed libraries on every run), float64 treated as '
                'real arithmetic (A3: tolerance/rounding clauses are not decided), identities of exp/sin/cos/sqrt/pow/log (A4), z3/cvc5 (A6), '
                'Skolemisation/induction/Hoare schema of pyvc (A7). Bounded entries in the evidence are a stand-in and are not counted as proved. ')
 
@@ -73,7 +73,7 @@ CLAIMED = {
         text='Unbounded proof (symbolic length, symbolic dt) from the real AST that calc_velo_and_disp_from_accel_arr (both trap branches, float and '
              'int records) returns series of the record length starting at 0 with exactly the trapezoid / rectangle increments, that the '
              'wrapper returns the same, that calc_peak is max|m| (upper bound + attained + non-negative), and that inputs are not written.',
-        note='Object-level pga/pgv/pgd wiring is covered under C04; linearity/exactness-for-linear-acceleration are consequences of the proved increment recurrences (not separately mechanised).',
+        note='Linearity/exactness-for-linear-acceleration are consequences of the proved increment recurrences (not separately mechanised).',
         ref='DESIGN.md 7 C08'),
     'C09': dict(
         text='Unbounded proof that every cumulative measure (Arias, CAV, ISV, integral |a|, integral |v|, cumulative abs displacement, unit kinetic energy) has the '
@@ -92,7 +92,7 @@ CLAIMED = {
              'determine_indices_of_peaks_for_cleaned_array: 0, every direction switch, last) plus a bounded symbolic check of the whole get_peak_array_indices / max / min / get_n_cyc_array '
              'pipeline over ALL real-valued (and integer) series of length <= 5 (<= 7 thorough): strictly ascending, begins at 0, ends at the first sample of the final run, monotone '
              'segments with strictly alternating direction, first-of-plateau, max/min selection, cycle counter values.',
-        note='The composition of the two helper contracts into the whole-function statement is bounded, not proved.',
+        note='The max/min selection and the cycle counter of the whole function are bounded, not proved. The induction schema (base + step => forall) and the generalisation of Skolem constants are applied by the contract (A7).',
         ref='DESIGN.md 7 C11'),
     'C12': dict(
         text='Zero crossings: unbounded proof of soundness (every reported index is 0, a first-of-run exact zero or the first sample after a strict sign change), range and strict ascent; '
@@ -102,9 +102,9 @@ CLAIMED = {
         ref='DESIGN.md 7 C12'),
     'C13': dict(
         text='Unbounded proofs for the cleaned-data helpers (entries at peaks equal the change since the previous peak / the signed peak magnitude, zero between peaks, input not written); '
-             'bounded symbolic check over all series of length <= 4 (<= 6 thorough), float/int/list inputs, of: zero away from peaks, sum|delta| = total variation, |sum delta| = |end-start|, '
+             'bounded symbolic check over all series of length <= 4 (<= 5 thorough), float/int/list inputs, of: zero away from peaks, sum|delta| = total variation, |sum delta| = |end-start|, '
              'pseudo-cyclic sum = TV/2 + (end-start)/2*sign(last move), shift independence, input untouched.',
-        note='Power-law equivalent-cycle measures: see evidence (covered only as far as listed there).',
+        note='All whole-function clauses are bounded, not proved.',
         ref='DESIGN.md 7 C13'),
     'C14': dict(
         text='Unbounded proof for interp_array_to_approx_dt in the three regimes (refine / equal / decimate) x even in {T,F}: returned step positive and <= target, dt/new_dt an integer '
@@ -112,7 +112,7 @@ CLAIMED = {
         note='Float-only quotient corner (K4) is outside the exact-arithmetic idealisation. resample_to_approx_dt: structure of the SciPy call proved; its label/count inconsistency is known finding K2 (printed as KNOWN-FINDING).',
         ref='DESIGN.md 7 C14'),
     'C17': dict(
-        text='butter_pass (tuple/list/ndarray cut-offs, band/low/high, every remove_gibbs option): unbounded proof that exactly one butter() and one filtfilt() call is made with the filter type from the None pattern, the cut-off normalised by 0.5/dt, the requested order, the caller\'s cut-off container left unmodified, '
+        text='butter_pass (tuple/list/ndarray cut-offs, band/low/high, every remove_gibbs option): unbounded proof that exactly one filtfilt() call (and at most one butter() design) is made with the filter type from the None pattern, the cut-off normalised by 0.5/dt, the requested order, the caller\'s cut-off container left unmodified, '
              'the filtered series = the record or start-mean|record|end-mean padded to 2^(ceil(log2 n)+extra), and that the new values are the filter output at the record positions (length and dt preserved); bad cut-offs raise ValueError. '
              'add_constant/add_series/add_signal: element-wise sum, mismatches rejected with the state untouched (unbounded). remove_poly (object and array level, degree 0..4): residual = record minus the degree-k least-squares polynomial (unbounded); '
              'residual has zero best fit, idempotent, unaffected by adding a polynomial first (bounded, exact rational least squares). running_average: mean of the ORIGINAL samples within floor(w/2) positions (bounded).',
@@ -135,6 +135,38 @@ CLAIMED = {
         ref='DESIGN.md 7 C20'),
 }
 
+HIST = ('Two-call histories: when (and only when) the call under test is seen to leave state behind that outlives it (module-level containers / globals, '
+        'memoising decorators such as functools.lru_cache, attributes set on an argument object), the same obligations are generated again for the call '
+        'made AFTER an earlier call of the same function with independent symbolic arguments (same kind case and sibling kind cases) and, for module-level '
+        'functions, after the SAME call; plus "the earlier result is not overwritten" and "same outcome as on a fresh state" (the latter decided by replay on the real code). ')
+
+# third-round additions (kept apart from the long texts above)
+EXTRA_TEXT = {
+    'C02': 'Refinement invariance also rests on the response being a function of its arguments only: two-call histories (earlier call with another time step) are part of the check.',
+    'C03': 'History unit: read s_a/s_v/s_d, change the record or the response periods through a public operation (11 operations), read again: fresh-object values. Energy spectra are replayed against their defining sums at the requested damping (xi = 0 included).',
+    'C05': 'Bounded: Cluster.time_match / same_start on two-signal clusters whose second record may be LONGER than the first (lags -1/0/1, either master, float and int): every signal stays a numeric array with len == npts and time == dt*[0..npts-1]; caller arrays unchanged.',
+    'C06': 'calc_fa_spectrum with every p2_plus in 0..3 as its own case (0 is falsy). History unit: read the spectrum, change the record through a public operation (8-11 operations, Signal and AccSignal), read again: fresh-object spectrum.',
+    'C07': 'History unit: read the smoothed spectrum, change the record or the smoothing frequencies through a public operation (12 operations incl. set_smooth_fa_frequecies_by_range), read again: fresh-object values.',
+    'C08': 'History unit (unbounded): read velocity, displacement, PGA, PGV, PGD, change the record through one of 13 public operations, read again: the values of a freshly constructed object with the new record.',
+    'C09': 'Every measure is run on float AND integer-dtype records.',
+    'C11': 'Unbounded and modular (any length, float and int): get_peak_array_indices executed with clean_out_non_changing and determine_indices_of_peaks_for_cleaned_array used through their proved contracts: '
+           'reported indices = kept indices of the cleaned peaks, begin at 0, strictly ascending, end at the first sample of the final constant run, each later index is the first sample of its plateau, '
+           'the series is monotone with a strict net movement between consecutive reported indices and the direction alternates from segment to segment (three inductions over the contracts, linear arithmetic, hand-picked instances).',
+    'C13': 'Bounded (n = 2, 3; thorough up to 5; float and int records; b in (0.05, 1], n_cyc > 0, a_ref > 0 symbolic): calc_cyc_amp_array_w_power_law = (sum over the half-cycle peaks of p**(1/b) / (2 n_cyc))**b at every sample and non-decreasing; '
+           'calc_n_cyc_array_w_power_law (cut_off = 0, records without exact zeros) = running sum of 0.5/(a_ref/p)**(1/b), non-decreasing; inverse law amplitude(N = cycles(a_ref)) = a_ref (up to two half cycles); '
+           'two identical components give 2**b times (combined) / exactly (geometric mean) the single-component amplitude. Power laws used: (x y)**e = x**e y**e, (x**(1/b))**b = x, monotonicity (A4, instantiated in the contract).',
+    'C12': 'The tolerance-subsequence clause of the switched peaks is split: for tolerances that do not exceed the peak of any zero-tolerance half cycle it holds on the unchanged code and is checked (bounded); above that it is known finding K5.',
+    'C14': 'resample_to_approx_dt: the record itself (same length, same values) is what scipy.signal.resample is called on and the returned values are exactly its result.',
+    'C15': 'Two-call histories: a transform returned earlier is not overwritten by a later transform.',
+    'C16': 'Two-call histories: a path that was saved to and loaded from before (other record, time step, label) loads back what was saved last.',
+    'C17': 'The coefficients handed to filtfilt are the Butterworth design of THIS request (uninterpreted design function of (type, order, cut-offs): congruent, so a correctly keyed design cache verifies and a cache that ignores the filter type fails), also after an earlier request of another kind on another signal.',
+    'C19': 'Two-call histories: the same call made twice on the same signal gives the same result.',
+}
+EXTRA_NOTE = {
+    'C13': 'cut_off > 0 (small peaks replaced by 1e-14 in the cycle count only) makes the inverse law approximate: not decided. Scaling laws follow from the defining formulas and the power laws (not mechanised). Scalar b only.',
+}
+HIST_PROPS = {'C01', 'C02', 'C03', 'C06', 'C07', 'C08', 'C09', 'C10', 'C11', 'C12', 'C13', 'C14', 'C15', 'C16', 'C17', 'C18', 'C19', 'C20', 'C05'}
+
 NOT_YET = {
 }
 
@@ -154,8 +186,8 @@ def main():
             'evidence_file': 'evidence/%s.json' % pid,
             'replay_cmd_template': './check %s --replay {path}' % pid,
             'engine': 'pyvc',
-            'level_claimed': {'category': 'proof', 'text': c['text'], 'design_ref': c['ref']},
-            'level_note': COMMON_NOTE + c['note'],
+            'level_claimed': {'category': 'proof', 'text': (c['text'] + (' ' + EXTRA_TEXT[pid] if pid in EXTRA_TEXT else '')), 'design_ref': c['ref']},
+            'level_note': COMMON_NOTE + (HIST if pid in HIST_PROPS else '') + c['note'] + (' ' + EXTRA_NOTE[pid] if pid in EXTRA_NOTE else ''),
             'technique': TECH,
         })
     na = []
